@@ -324,7 +324,7 @@ def outsxr_instance(Ks, Kt, T, variant='value', return_dict=False, perm=None):
 
 
 # ----------------------------------------------------------------------------- set_snr / get_snr
-def snr_instance(shape):
+def snr_instance(shape, axis=None):
     from pb_bss.evaluation import sxr_module as sx
     shape = tuple(shape)
 
@@ -333,18 +333,38 @@ def snr_instance(shape):
         X = B.real('X', shape)
         N = B.real('N', shape)
         snr = B.real('snr', (), dist=(-20.0, 30.0))
-        B.require('signal-nonzero', sp.gt(sp.sum(x * x for x in cells(X).reshape(-1)), 0.0))
-        B.require('noise-nonzero', sp.gt(sp.sum(x * x for x in cells(N).reshape(-1)), 0.0))
+        if axis is None:
+            B.require('signal-nonzero', sp.gt(sp.sum(x * x for x in cells(X).reshape(-1)), 0.0))
+            B.require('noise-nonzero', sp.gt(sp.sum(x * x for x in cells(N).reshape(-1)), 0.0))
+        else:
+            # every slice along the pooled axes carries signal and noise power
+            ax = tuple(a % len(shape) for a in ((axis,) if isinstance(axis, int) else axis))
+            for i in np.ndindex(*[1 if a in ax else n for a, n in enumerate(shape)]):
+                sl = tuple(slice(None) if a in ax else i[a] for a in range(len(shape)))
+                B.require('signal-nonzero', sp.gt(sp.sum(x * x for x in cells(X)[sl].reshape(-1)), 0.0))
+                B.require('noise-nonzero', sp.gt(sp.sum(x * x for x in cells(N)[sl].reshape(-1)), 0.0))
         return {'X': X, 'N': N, 'snr': snr}
 
     def call(inp):
-        X2, N2 = sx.set_snr(inp['X'], inp['N'], inp['snr'], inplace=False)
-        return {'X2': X2, 'N2': N2, 'snr2': sx.get_snr(X2, N2)}
+        if axis is None:
+            X2, N2 = sx.set_snr(inp['X'], inp['N'], inp['snr'], inplace=False)
+            return {'X2': X2, 'N2': N2, 'snr2': sx.get_snr(X2, N2)}
+        X2, N2 = sx.set_snr(inp['X'], inp['N'], inp['snr'], axis=axis, inplace=False)
+        return {'X2': X2, 'N2': N2, 'snr2': sx.get_snr(X2, N2, axis=axis)}
 
     def ensures(sp, inp, out):
         x, x2 = cells(inp['X']), cells(out['X2'])
         yield 'signal-unchanged', sp.all(sp.eq(x[i], x2[i]) for i in np.ndindex(*shape))
-        yield 'get-after-set-returns-request', sp.eq(out['snr2'], inp['snr'])
+        if axis is None:
+            yield 'get-after-set-returns-request', sp.eq(out['snr2'], inp['snr'])
+        else:
+            ax = tuple(a % len(shape) for a in ((axis,) if isinstance(axis, int) else axis))
+            want = tuple(n for a, n in enumerate(shape) if a not in ax)
+            yield 'per-slice-shape', sp._f(shape_of(out['snr2']) == want and shape_of(out['N2']) == shape)
+            if shape_of(out['snr2']) == want:
+                r = cells(out['snr2'])
+                for i in np.ndindex(*want):
+                    yield 'get-after-set-returns-request[%s]' % (i,), sp.eq(r[i], inp['snr'])
 
     def hints(sp, inp, out):
         """log10(a) + log10(b) = log10(a b) instances connecting the two get_snr ratios through the factor."""
@@ -366,7 +386,7 @@ def snr_instance(shape):
                     hs.append(E.implies(guard, E.cmp('==', va, E.add(vb, E.mul(E.const(2), lf.term())))))
         return hs
 
-    return Instance('C19', F_SNR, 'shape%s' % 'x'.join(map(str, shape)), make, call, ensures, hints=hints, timeout=30.0,
+    return Instance('C19', F_SNR, 'shape%s%s' % ('x'.join(map(str, shape)), '' if axis is None else '-axis%s' % str(axis).replace(' ', '')), make, call, ensures, hints=hints, timeout=30.0,
                     scales=SCALES)
 
 
@@ -401,4 +421,7 @@ def instances(tier):
         out.append(outsxr_instance(2, 3, 2, 'reorder', perm=(1, 0, 2)))
     out.append(snr_instance((3,)))
     out.append(snr_instance((2, 2)))
+    for ax in (0, -1, 1, (0,), (0, 1)):
+        out.append(snr_instance((2, 2), axis=ax))
+    out.append(snr_instance((2, 1, 2), axis=0))
     return out
